@@ -104,14 +104,19 @@ struct Universe
   {
     keys = {"a", "b", "ab", "k1", "k2", std::string("a\0b", 3), std::string("\xff\x00", 2),
             "key-" + kvref::pattern(36, 7), // 40 bytes
-            "ab" + kvref::pattern(253, 1)}; // 255 bytes
-    prefixes = {"a", "k", "ab", "", "b", std::string("a\0", 2), "zz"};
+            "ab" + kvref::pattern(253, 1),  // 255 bytes
+            std::string("\0", 1),           // 9: 1 byte, NUL
+            std::string("\0", 1) + kvref::pattern(254, 2), // 10: 255 bytes binary, starts with NUL
+            "k" + kvref::pattern(65534, 3)}; // 11: 65535 bytes = MAX_KEY_LENGTH (boundary of every length check)
+    prefixes = {"a", "k", "ab", "", "b", std::string("a\0", 2), "zz", std::string("\0", 1)};
   }
   const std::string &key(std::int64_t r) const
   {
     // short keys are much more likely than the long ones
-    static const int pick[] = {0, 1, 2, 3, 4, 5, 6, 0, 1, 2, 3, 4, 7, 0, 1, 8};
-    return keys[static_cast<std::size_t>(pick[r % 16])];
+    // (boundary-length keys: 1/32 each - a 65535-byte key makes every record and image 64 KiB)
+    static const int pick[] = {0, 1, 2, 3, 4, 5, 6, 0, 1, 2, 3, 4, 7, 0, 1, 8,
+                               0, 1, 2, 3, 4, 5, 6, 0, 1, 2, 3, 4, 7, 9, 10, 11};
+    return keys[static_cast<std::size_t>(pick[r % 32])];
   }
   const std::string &prefix(std::int64_t r) const { return prefixes[static_cast<std::size_t>(r) % prefixes.size()]; }
 };
@@ -121,7 +126,7 @@ const Universe &U()
   return u;
 }
 
-Bytes makeVal(std::int64_t sel, const std::string &tag)
+Bytes makeVal(std::int64_t sel, const std::string &tag, bool allowBig = true)
 {
   std::string s;
   switch (sel % 16)
@@ -132,6 +137,10 @@ Bytes makeVal(std::int64_t sel, const std::string &tag)
   case 12: s = tag + kvref::pattern(300 - tag.size(), (unsigned)sel); break;
   case 13: s = tag + std::string("\0\xff\0", 3) + kvref::pattern(17, (unsigned)sel); break;
   case 14: s = tag + kvref::pattern(9000 - tag.size(), (unsigned)sel); break; // > filebuf: writev + write
+  case 15: // 64 KiB, one value in 64 (cut in stride mode: beyond the exhaustive budget)
+    if (allowBig && (sel / 16) % 4 == 0) s = tag + kvref::pattern(65536 - tag.size(), (unsigned)sel);
+    else s = tag + "15";
+    break;
   default: s = tag + std::to_string(sel % 16); break;
   }
   return Bytes(s.begin(), s.end());
@@ -268,7 +277,7 @@ Applied applyStep(const Step &st, KVStore *kv, Belief &m, std::map<std::string, 
       const std::string &k = U().key(r[1] / 3 + static_cast<std::int64_t>(j) * 5);
       std::int64_t sel = r[2] + static_cast<std::int64_t>(j);
       if (sel % 16 == 14) sel = 3; // at most small values in batches
-      b[k] = makeVal(sel, st.tag + "." + std::to_string(j) + ":");
+      b[k] = makeVal(sel, st.tag + "." + std::to_string(j) + ":", false);
     }
     a.desc = withTtl ? (pbt::Fmt() << "batchTtl(" << ttl << "s:").str() : std::string("batch(");
     for (auto &kvp : b)
@@ -1213,6 +1222,18 @@ PBT_REGRESSION(kv_deadline_passes_between_crash_and_reopen)
   p.contMode = 1;
   p.gap1 = 3600000;
   p.gap2 = 1000;
+  runKvPlan(c, p);
+}
+// Boundary key length: a 65535-byte key (MAX_KEY_LENGTH, accepted by set()) must survive log
+// replay - alone, as an overwrite of an older snapshot value, and its removal must stick
+PBT_REGRESSION(kv_max_length_key_replay)
+{
+  Plan p;
+  p.cfg.maxLog = 1u << 20;
+  p.steps = decodeSteps({krow(OpSet, 31, 3), krow(OpReopen), krow(OpCompact), krow(OpSet, 31, 4), krow(OpSetTtl, 30, 5, 1),
+                         krow(OpReopen), krow(OpRemove, 31), krow(OpReopen), krow(OpSet, 29, 0)}, "v", true);
+  p.suffix = decodeSteps({krow(OpSet, 31, 6), krow(OpSet, 3, 5)}, "c", false);
+  p.contMode = 0;
   runKvPlan(c, p);
 }
 // S14: a flush completed, the next flush is cut: the store must not come back empty
